@@ -21,7 +21,8 @@ theorem enqueue_err (e : Ev) (s : St) : (enqueue e s).err = s.err := by
 theorem hooksFlagged_ok : HooksOK hooksFlagged :=
   ⟨enqueue_cfg, enqueue_err, enqueue_cfg, enqueue_err⟩
 theorem hooksAsync_ok : HooksOK hooksAsync :=
-  ⟨enqueue_cfg, enqueue_err, fun e s => by simp [hooksAsync, enqueue_cfg], fun e s => by simp [hooksAsync, enqueue_err]⟩
+  ⟨fun e s => by simp [hooksAsync, enqueue_cfg], fun e s => by simp [hooksAsync, enqueue_err],
+   fun e s => by simp [hooksAsync, enqueue_cfg], fun e s => by simp [hooksAsync, enqueue_err]⟩
 
 -- actions and done checks do not touch the configuration ---------------------------------------------
 theorem execActions_cfg_err (h : Hooks) (hok : HooksOK h) (evType : String) :
@@ -168,6 +169,17 @@ theorem exitFold_spec (h : Hooks) (hok : HooksOK h) (fl : Flavor) (m : Machine) 
 theorem recordHistory_cfg_err (m : Machine) (ex : List Path) (s : St) :
     (recordHistory m ex s).cfg = s.cfg ∧ (recordHistory m ex s).err = s.err := ⟨rfl, rfl⟩
 
+theorem emit_cfg (r : String) (s : St) : (emit r s).cfg = s.cfg := rfl
+theorem emit_err (r : String) (s : St) : (emit r s).err = s.err := rfl
+
+/-- the observer record changes neither the configuration nor the error flag -/
+theorem execute_cfg_eq (h : Hooks) (fl : Flavor) (m : Machine) (ev : Ev) (pl : Plan) (s : St) :
+    (execute h fl m ev pl s).cfg = (executeCore h fl m ev pl s).cfg := by
+  unfold execute; simp only; split <;> rfl
+theorem execute_err_eq (h : Hooks) (fl : Flavor) (m : Machine) (ev : Ev) (pl : Plan) (s : St) :
+    (execute h fl m ev pl s).err = (executeCore h fl m ev pl s).err := by
+  unfold execute; simp only; split <;> rfl
+
 /-- **execute is a fold**: after a successful external plan the configuration is
     `(cfg \ exits) ∪ entries`. -/
 theorem execute_cfg (h : Hooks) (hok : HooksOK h) (fl : Flavor) (m : Machine) (ev : Ev) (pl : Plan) (s : St)
@@ -176,7 +188,8 @@ theorem execute_cfg (h : Hooks) (hok : HooksOK h) (fl : Flavor) (m : Machine) (e
     (execute h fl m ev pl s).err = none ∧
       ∀ q, q ∈ (execute h fl m ev pl s).cfg ↔
         (q ∈ s.cfg ∧ q ∉ pl.exits) ∨ q ∈ pl.entries.map (·.path) := by
-  unfold execute
+  rw [execute_err_eq, execute_cfg_eq]
+  unfold executeCore
   simp only [hint, Bool.false_eq_true, if_false, hperr]
   obtain ⟨r1, r2⟩ := recordHistory_cfg_err m pl.exits s
   obtain ⟨x1, x2⟩ := exitFold_spec h hok fl m (some ev.type) pl.exits (recordHistory m pl.exits s)
@@ -438,6 +451,17 @@ theorem defAt_isSome_of_at {m : Machine} {p : Path} {n : SNode} (h : m.root.at p
     (m.defAt p).isSome := by
   simp [Machine.defAt, h]
 
+theorem domainO_plain (m : Machine) (src tgt : Path) (htne : tgt ≠ [])
+    (hkh : ¬ (m.kindAt tgt = some Kind.history)) :
+    domainO m src tgt = some (Spec.domain src tgt) := by
+  unfold domainO Spec.domain
+  by_cases h1 : tgt = src
+  · subst h1; simp [htne]
+  · simp only [h1, if_false]
+    by_cases h2 : tgt <+: src
+    · simp [h2, htne]
+    · simp [h2, hkh]
+
 /-- **C01 on the executable model, one external transition** (plain target: resolvable, not a
     history node, not the machine root; hooks that only enqueue — i.e. every phase of the async
     engine and the flagged phases of the sync engine). -/
@@ -476,7 +500,11 @@ theorem legal_microstep_plain (h : Hooks) (hok : HooksOK h) (fl : Flavor) (m : M
         entries := (planEnter m (pathToEnter (Spec.domain c.src tgt) tgt)).1,
         err := (planEnter m (pathToEnter (Spec.domain c.src tgt) tgt)).2 } := by
     unfold planTransition
-    simp only [ht, hne, if_false, hres, hnotint, Bool.false_eq_true, hkh, hpf, htne]
+    simp only [ht, hne, if_false, hres, hnotint, Bool.false_eq_true, hkh, domainO_plain m c.src tgt htne hkh,
+      pathFromO]
+    have hpf' : pathFrom (Spec.domain c.src tgt) tgt = pathToEnter (Spec.domain c.src tgt) tgt := hpf
+    rw [hpf']
+    rfl
   rw [hplan]
   -- execute is a fold
   have hvx : ∀ p ∈ sortExit m (exitSet m s.cfg (domain c.src tgt) tgt), (m.defAt p).isSome := by
